@@ -49,6 +49,10 @@ type c14Cli struct {
 	MaxBody   int64 // -1 = no limit
 	Redirects int   // -redirects
 	Redir     []int // per target: the server redirects (302) this many times before it answers 200
+	RateN     int    // -rate=RateN/RatePer
+	RatePerMS int
+	DurMS     int    // -duration
+	MaxBodyAs string // notation used for -max-body ("" = plain integer)
 }
 
 const wireBody = "0123456789"
@@ -217,7 +221,11 @@ func runC14Cli(c c14Cli) error {
 	out := filepath.Join(dir, "out.gob")
 	// one worker and "stop after N hits" is not a CLI option: use a rate and a duration that yield about c.Hits hits,
 	// and judge every request that was made (the number itself is not asserted)
-	args := []string{"-targets=" + tf, "-format=" + c.Format, "-output=" + out, "-rate=200/s", "-duration=" + fmt.Sprintf("%dms", c.Hits*5),
+	rate, dur := "200/s", fmt.Sprintf("%dms", c.Hits*5)
+	if c.RateN > 0 {
+		rate, dur = fmt.Sprintf("%d/%dms", c.RateN, c.RatePerMS), fmt.Sprintf("%dms", c.DurMS)
+	}
+	args := []string{"-targets=" + tf, "-format=" + c.Format, "-output=" + out, "-rate=" + rate, "-duration=" + dur,
 		"-workers=1", "-max-workers=1", "-timeout=5s", "-keepalive=true", "-http2=false"}
 	if c.Lazy {
 		args = append(args, "-lazy")
@@ -225,7 +233,11 @@ func runC14Cli(c c14Cli) error {
 	if c.Chunked {
 		args = append(args, "-chunked")
 	}
-	args = append(args, "-max-body="+strconv.FormatInt(c.MaxBody, 10), "-redirects="+strconv.Itoa(c.Redirects))
+	mb := strconv.FormatInt(c.MaxBody, 10)
+	if c.MaxBodyAs != "" && c.MaxBody >= 0 {
+		mb = fmt.Sprintf(c.MaxBodyAs, c.MaxBody) // e.g. "%dB", "%d b", "%d byte"
+	}
+	args = append(args, "-max-body="+mb, "-redirects="+strconv.Itoa(c.Redirects))
 	if c.Name != "" {
 		args = append(args, "-name="+c.Name)
 	}
@@ -372,9 +384,16 @@ func TestC14Cli(t *testing.T) {
 		c := c14Cli{Format: rapid.SampledFrom([]string{"http", "json"}).Draw(t, "format"), Lazy: rapid.Bool().Draw(t, "lazy"),
 			Name: rapid.SampledFrom([]string{"", "", "big-bang"}).Draw(t, "name"), Hits: rapid.IntRange(4, 30).Draw(t, "hits"),
 			Chunked: rapid.IntRange(0, 3).Draw(t, "chunked") == 0, MaxBody: rapid.SampledFrom([]int64{-1, -1, 0, 1, 9, 10, 11, 4096}).Draw(t, "maxbody"),
-			Redirects: rapid.SampledFrom([]int{10, 10, -1, 0, 1, 2}).Draw(t, "redirects")}
+			Redirects: rapid.SampledFrom([]int{10, 10, -1, 0, 1, 2}).Draw(t, "redirects"),
+			MaxBodyAs: rapid.SampledFrom([]string{"", "", "%dB", "%d b", "%d byte"}).Draw(t, "maxbodyas")}
+		if rapid.Bool().Draw(t, "ratevariety") {
+			// durations that are not a whole number of rate periods, more than one period long
+			c.RateN, c.RatePerMS = rapid.SampledFrom([]int{1, 2, 3, 5}).Draw(t, "raten"), rapid.SampledFrom([]int{20, 50}).Draw(t, "rateper")
+			c.DurMS = c.RatePerMS*rapid.IntRange(1, 4).Draw(t, "periods") + c.RatePerMS*rapid.IntRange(1, 9).Draw(t, "tenths")/10
+		}
 		keyGen := rapid.OneOf(rapid.SampledFrom([]string{"Content-Type", "content-type", "X-Account-ID", "x-account-id", "SOAPAction", "X-Trace", "x-trace"}), rapid.StringMatching(`[A-Za-z][A-Za-z0-9-]{0,8}`))
-		valGen := rapid.StringMatching(`[A-Za-z0-9/=;.-][A-Za-z0-9/=;., -]{0,10}[A-Za-z0-9/=;.-]`)
+		valGen := rapid.OneOf(rapid.StringMatching(`[A-Za-z0-9/=;.-][A-Za-z0-9/=;., -]{0,10}[A-Za-z0-9/=;.-]`),
+			rapid.SampledFrom([]string{"\"etag\"", "W/\"weak\"", "'single'", "`raw`", "\"a b\""}))
 		nd := rapid.IntRange(0, 3).Draw(t, "ndef")
 		var defKeys []string
 		bad := func(k string) bool {
@@ -396,6 +415,9 @@ func TestC14Cli(t *testing.T) {
 			c.DefBody = []byte("default body")
 		}
 		nt := rapid.IntRange(1, 5).Draw(t, "ntargets")
+		if c.RateN > 0 {
+			nt = rapid.IntRange(1, 12).Draw(t, "ntargets2")
+		}
 		shared := 0
 		for i := 0; i < nt; i++ {
 			tg := c14CliTarget{Method: rapid.SampledFrom([]string{"GET", "POST", "PUT", "DELETE", "PATCH"}).Draw(t, fmt.Sprintf("m%d", i)), Path: fmt.Sprintf("/t/%d?x=%d&r=0", i, i)}
@@ -424,7 +446,7 @@ func TestC14Cli(t *testing.T) {
 		// keys that differ only in letter case are merged by net/http on the wire into separate lines with their own case; keep them,
 		// but values of one exact key must stay in order
 		sig, _ := json.Marshal(c)
-		prop := os.Getenv("VERIF_AS") // the same end-to-end run also decides C06's command-line clauses
+		prop := os.Getenv("VERIF_AS") // the same end-to-end run also decides command-line clauses of C06 and C19
 		if prop == "" {
 			prop = "C14"
 		}
@@ -442,4 +464,5 @@ var _ = vegeta.ErrNoTargets
 func init() {
 	vh.RegisterReplay("C14.cli", vh.Replayer(runC14Cli))
 	vh.RegisterReplay("C06.cli", vh.Replayer(runC14Cli))
+	vh.RegisterReplay("C19.cli", vh.Replayer(runC14Cli))
 }
